@@ -43,7 +43,7 @@ use temporal_provider::prelude::*;
 use tzif::{
     self,
     data::{
-        posix::{DstTransitionInfo, PosixTzString, TransitionDay, ZoneVariantInfo},
+        posix::{PosixTzString, TransitionDate, TransitionDay, ZoneVariantInfo},
         time::Seconds,
         tzif::{DataBlock, LocalTimeTypeRecord, TzifData, TzifHeader},
     },
@@ -210,54 +210,56 @@ impl Tzif {
             .ok_or(TemporalError::general("Only Tzif V2+ is supported."))
     }
 
+    /// The UTC offset in force at `epoch_seconds`, with the epoch seconds of the transition
+    /// that started it.
     pub fn get(&self, epoch_seconds: &Seconds) -> TemporalResult<TimeZoneOffset> {
+        let (record, transition_epoch) = self.record_at(epoch_seconds.0)?;
+        Ok(TimeZoneOffset {
+            offset: record.offset,
+            transition_epoch,
+        })
+    }
+
+    /// The local time record in force at `epoch_seconds`, with the epoch seconds of the
+    /// transition that started it (`None` before the first transition).
+    fn record_at(&self, epoch_seconds: i64) -> TemporalResult<(LocalTimeRecord, Option<i64>)> {
         let db = self.get_data_block2()?;
+        // The number of transitions at or before the instant: a transition applies from its
+        // own instant on.
+        let preceding = db
+            .transition_times
+            .partition_point(|transition| transition.0 <= epoch_seconds);
 
-        let result = db.transition_times.binary_search(epoch_seconds);
-
-        match result {
-            // NOTE: a transition applies from its own instant on.
-            Ok(idx) => Ok(get_timezone_offset(db, idx)),
-            // <https://datatracker.ietf.org/doc/html/rfc8536#section-3.2>
-            // If there are no transitions, local time for all timestamps is specified by the TZ
-            // string in the footer if present and nonempty; otherwise, it is
-            // specified by time type 0.
-            Err(_) if db.transition_times.is_empty() => {
-                if let Some(posix_tz_string) = self.posix_tz_string() {
-                    resolve_posix_tz_string_for_epoch_seconds(posix_tz_string, epoch_seconds.0)
-                } else {
-                    Ok(TimeZoneOffset {
-                        offset: db.local_time_type_records[0].utoff.0,
-                        transition_epoch: None,
-                    })
+        // <https://datatracker.ietf.org/doc/html/rfc8536#section-3.2>
+        // Local time for timestamps before the first transition is specified by the first time
+        // type (time type 0); if there are no transitions, local time for all timestamps is
+        // specified by the TZ string in the footer if present and nonempty.
+        if preceding == 0 {
+            return match self.posix_tz_string() {
+                Some(posix_tz_string) if db.transition_times.is_empty() => {
+                    Ok(posix_record_at(posix_tz_string, epoch_seconds))
                 }
-            }
-            // <https://datatracker.ietf.org/doc/html/rfc8536#section-3.2>
-            // Local time for timestamps before the first transition is specified by the first time
-            // type (time type 0).
-            Err(idx) if idx == 0 => Ok(TimeZoneOffset {
-                offset: db.local_time_type_records[0].utoff.0,
-                transition_epoch: None,
-            }),
-            Err(idx) => {
-                if db.transition_times.len() <= idx {
-                    // The transition time provided is beyond the length of
-                    // the available transition time, so the time zone is
-                    // resolved with the POSIX tz string.
-                    let mut offset = resolve_posix_tz_string_for_epoch_seconds(
-                        self.posix_tz_string().ok_or(TemporalError::general(
-                            "No POSIX tz string to resolve with.",
-                        ))?,
-                        epoch_seconds.0,
-                    )?;
-                    offset
-                        .transition_epoch
-                        .get_or_insert_with(|| db.transition_times[idx - 1].0);
-                    return Ok(offset);
-                }
-                Ok(get_timezone_offset(db, idx - 1))
-            }
+                _ => Ok((db.local_time_type_records[0].into(), None)),
+            };
         }
+
+        let last_transition = db.transition_times[preceding - 1].0;
+        if preceding == db.transition_times.len() && last_transition < epoch_seconds {
+            // The instant is beyond the listed transitions, so the time zone is resolved
+            // with the POSIX tz string.
+            let posix_tz_string = self
+                .posix_tz_string()
+                .ok_or(TemporalError::general("No POSIX tz string to resolve with."))?;
+            let (record, rule_transition) = posix_record_at(posix_tz_string, epoch_seconds);
+            // The rule takes over from the last listed transition.
+            let transition = rule_transition.map_or(last_transition, |t| t.max(last_transition));
+            return Ok((record, Some(transition)));
+        }
+
+        Ok((
+            get_local_record(db, preceding - 1).into(),
+            Some(last_transition),
+        ))
     }
 
     // For more information, see /docs/TZDB.md
@@ -338,117 +340,72 @@ impl Tzif {
 }
 
 #[inline]
-fn get_timezone_offset(db: &DataBlock, idx: usize) -> TimeZoneOffset {
-    // NOTE: Transition type can be empty. If no transition_type exists,
-    // then use 0 as the default index of local_time_type_records.
-    let offset = db.local_time_type_records[db.transition_types.get(idx).copied().unwrap_or(0)];
-    TimeZoneOffset {
-        transition_epoch: db.transition_times.get(idx).map(|s| s.0),
-        offset: offset.utoff.0,
-    }
-}
-
-#[inline]
 fn get_local_record(db: &DataBlock, idx: usize) -> LocalTimeTypeRecord {
     // NOTE: Transition type can be empty. If no transition_type exists,
     // then use 0 as the default index of local_time_type_records.
     db.local_time_type_records[db.transition_types.get(idx).copied().unwrap_or(0)]
 }
 
-#[inline]
-fn resolve_posix_tz_string_for_epoch_seconds(
+/// The local time record that the footer of a tzif file specifies for `epoch_seconds`, with
+/// the epoch seconds of the rule transition that started it (`None` without a rule).
+///
+/// For more information, see the [POSIX tz string docs](https://sourceware.org/glibc/manual/2.40/html_node/Proleptic-TZ.html)
+fn posix_record_at(
     posix_tz_string: &PosixTzString,
-    seconds: i64,
-) -> TemporalResult<TimeZoneOffset> {
-    let Some(dst_variant) = &posix_tz_string.dst_info else {
+    epoch_seconds: i64,
+) -> (LocalTimeRecord, Option<i64>) {
+    let std = LocalTimeRecord::from_standard_time(&posix_tz_string.std_info);
+    let Some(dst_info) = &posix_tz_string.dst_info else {
         // Regardless of the time, there is one variant and we can return it.
-        return Ok(TimeZoneOffset {
-            transition_epoch: None,
-            offset: LocalTimeRecord::from_standard_time(&posix_tz_string.std_info).offset,
-        });
+        return (std, None);
     };
+    let dst = LocalTimeRecord::from_daylight_savings_time(&dst_info.variant_info);
 
-    let start = &dst_variant.start_date;
-    let end = &dst_variant.end_date;
-
-    // TODO: Resolve safety issue around utils.
-    //   Using f64 is a hold over from early implementation days and should
-    //   be moved away from.
-
-    let (is_transition_day, transition) =
-        cmp_seconds_to_transitions(&start.day, &end.day, seconds)?;
-
-    let transition =
-        compute_tz_for_epoch_seconds(is_transition_day, transition, seconds, dst_variant);
-    let std_offset = LocalTimeRecord::from_standard_time(&posix_tz_string.std_info).offset;
-    let dst_offset = LocalTimeRecord::from_daylight_savings_time(&dst_variant.variant_info).offset;
-    let (old_offset, new_offset) = match transition {
-        TransitionType::Dst => (std_offset, dst_offset),
-        TransitionType::Std => (dst_offset, std_offset),
-    };
-    let transition = match transition {
-        TransitionType::Dst => start,
-        TransitionType::Std => end,
-    };
-    let year = utils::epoch_time_to_epoch_year(seconds * 1000);
-    let year_epoch = i64::from(utils::epoch_days_for_year(year)) * 86400;
-    let leap_day = utils::mathematical_in_leap_year(seconds * 1000) as u16;
-
-    let days = match transition.day {
-        TransitionDay::NoLeap(day) if day > 59 => day - 1 + leap_day,
-        TransitionDay::NoLeap(day) => day - 1,
-        TransitionDay::WithLeap(day) => day,
-        TransitionDay::Mwd(month, week, day) => {
-            let days_to_month = utils::month_to_day((month - 1) as u8, leap_day);
-            let days_in_month = u16::from(utils::iso_days_in_month(year, month as u8) - 1);
-
-            // Month starts in the day...
-            let day_offset =
-                (u16::from(utils::epoch_seconds_to_day_of_week(i64::from(year_epoch)))
-                    + days_to_month)
-                    .rem_euclid(7);
-
-            // EXAMPLE:
-            //
-            // 0   1   2   3   4   5   6
-            // sun mon tue wed thu fri sat
-            // -   -   -   0   1   2   3
-            // 4   5   6   7   8   9   10
-            // 11  12  13  14  15  16  17
-            // 18  19  20  21  22  23  24
-            // 25  26  27  28  29  30  -
-            //
-            // The day_offset = 3, since the month starts on a wednesday.
-            //
-            // We're looking for the second friday of the month. Thus, since the month started before
-            // a friday, we need to start counting from week 0:
-            //
-            // day_of_month = (week - u16::from(day_offset <= day)) * 7 + day - day_offset = (2 - 1) * 7 + 5 - 3 = 9
-            //
-            // This works if the month started on a day before the day we want (day_offset <= day). However, if that's not the
-            // case, we need to start counting on week 1. For example, calculate the day of the month for the third monday
-            // of the month:
-            //
-            // day_of_month = (week - u16::from(day_offset <= day)) * 7 + day - day_offset = (3 - 0) * 7 + 1 - 3 = 19
-            let mut day_of_month = (week - u16::from(day_offset <= day)) * 7 + day - day_offset;
-
-            // If we're on week 5, we need to clamp to the last valid day.
-            if day_of_month > days_in_month - 1 {
-                day_of_month -= 7
+    // The latest transition at or before the instant, among those of the year of the instant
+    // and of its neighbours (a transition of the year before started the period that is in
+    // force at the beginning of the year).
+    let year = utils::epoch_time_to_epoch_year(epoch_seconds * 1_000);
+    let mut latest: Option<(i64, LocalTimeRecord)> = None;
+    for year in [year - 1, year, year + 1] {
+        // NOTE: the transition times are local times of the variant that is being left.
+        let to_dst = posix_transition_seconds(&dst_info.start_date, year) - std.offset;
+        let to_std = posix_transition_seconds(&dst_info.end_date, year) - dst.offset;
+        for (transition, record) in [(to_dst, dst), (to_std, std)] {
+            if transition <= epoch_seconds && latest.map_or(true, |(t, _)| t < transition) {
+                latest = Some((transition, record));
             }
+        }
+    }
+    match latest {
+        Some((transition, record)) => (record, Some(transition)),
+        None => (std, None),
+    }
+}
 
-            days_to_month + day_of_month
+/// The wall-clock reading (as seconds from the epoch) of a rule transition in `year`.
+fn posix_transition_seconds(transition: &TransitionDate, year: i32) -> i64 {
+    let year_start = i64::from(utils::epoch_days_for_year(year));
+    let leap_day = u16::from(utils::mathematical_days_in_year(year) == 366);
+    let epoch_days = match transition.day {
+        // `Jn`: the day of the year 1..=365, February 29 is never counted.
+        TransitionDay::NoLeap(day) if day > 59 => year_start + i64::from(day - 1 + leap_day),
+        TransitionDay::NoLeap(day) => year_start + i64::from(day) - 1,
+        // `n`: the zero-based day of the year, February 29 is counted in leap years.
+        TransitionDay::WithLeap(day) => year_start + i64::from(day),
+        // `Mm.w.d`: the w-th weekday d of month m, where week 5 stands for the last one.
+        TransitionDay::Mwd(month, week, weekday) => {
+            let month_start = year_start + i64::from(utils::month_to_day((month - 1) as u8, leap_day));
+            // NOTE: the epoch day 0 was a Thursday.
+            let first_weekday = (month_start + 4).rem_euclid(7);
+            let mut day_of_month =
+                (i64::from(weekday) - first_weekday).rem_euclid(7) + 7 * (i64::from(week) - 1);
+            if day_of_month >= i64::from(utils::iso_days_in_month(year, month as u8)) {
+                day_of_month -= 7;
+            }
+            month_start + day_of_month
         }
     };
-
-    // Transition time is on local time, so we need to add the UTC offset to get the correct UTC timestamp
-    // for the transition.
-    let transition_epoch =
-        i64::from(year_epoch) + i64::from(days) * 86400 + transition.time.0 - old_offset;
-    Ok(TimeZoneOffset {
-        offset: new_offset,
-        transition_epoch: Some(transition_epoch),
-    })
+    epoch_days * 86_400 + transition.time.0
 }
 
 /// Resolve the footer of a tzif file.
@@ -507,29 +464,6 @@ fn resolve_posix_tz_string(
             Ok(LocalTimeRecord::from_standard_time(&posix_tz_string.std_info).into())
         }
     }
-}
-
-fn compute_tz_for_epoch_seconds(
-    is_transition_day: bool,
-    transition: TransitionType,
-    seconds: i64,
-    dst_variant: &DstTransitionInfo,
-) -> TransitionType {
-    if is_transition_day && transition == TransitionType::Dst {
-        let time = utils::epoch_ms_to_ms_in_day(seconds * 1_000) / 1_000;
-        let transition_time = dst_variant.start_date.time.0 - dst_variant.variant_info.offset.0;
-        if i64::from(time) < transition_time {
-            return TransitionType::Std;
-        }
-    } else if is_transition_day {
-        let time = utils::epoch_ms_to_ms_in_day(seconds * 1_000) / 1_000;
-        let transition_time = dst_variant.end_date.time.0 - dst_variant.variant_info.offset.0;
-        if i64::from(time) < transition_time {
-            return TransitionType::Dst;
-        }
-    }
-
-    transition
 }
 
 /// The month, week of month, and day of week value built into the POSIX tz string.
